@@ -5,7 +5,7 @@ From MV Require Import Base.Bytes Model.View Proofs.ViewBase Proofs.ViewSpec Pro
 Import ListNotations.
 
 Definition post (o : op) (s s' : state) : Prop :=
-  Inv s' /\ (M3 s -> M3 s') /\ (Fresh s -> fresh_ok s o -> Fresh s')
+  Inv s' /\ (M3 s -> M3 s') /\ (FreshV s -> FreshV s')
   /\ notif (raw_ids s) (log s') (raw_ids s').
 
 Definition same_mem (s s' : state) : Prop := forall id, In id (raw_ids s') <-> In id (raw_ids s).
@@ -35,9 +35,9 @@ Lemma post_simple o s s' : Inv s -> updm s s' -> view s' = view s -> FocusOk s' 
   notif (raw_ids s) (log s') (raw_ids s') -> post o s s'.
 Proof.
   intros I U V F Nt. pose proof (u_cfg _ _ (um_upd _ _ U)) as Cf. split; [|split; [|split]].
-  - eapply Inv_transfer; eauto.
+  - apply (Inv_transfer s s'); auto; [apply (um_upd _ _ U) | eapply CoreV_updm; eauto; apply (i_core _ I)].
   - intros H. eapply M3_cfg; eauto.
-  - intros H _. eapply Fresh_upd; [apply (um_upd _ _ U) | exact H].
+  - intros H. eapply FreshV_cfg; eauto.
   - exact Nt.
 Qed.
 
@@ -100,13 +100,12 @@ Lemma refilter_post o s s0 : Inv s -> log s = [] ->
 Proof.
   intros I L Hh Hst Ho Hse Hl.
   assert (Nd : NoDup (store s0)) by (rewrite Hst; apply (c_store _ (i_core _ I))).
-  destruct (refilter_spec s0 Nd) as (s' & E & U & Lg & C & F & A1 & A2 & A3).
+  destruct (refilter_spec s0 Nd) as (s' & E & U & Lg & C & F & A1 & A2 & A3 & Fv).
   exists s'. split; [exact E|]. split; [|split; [|split]].
-  - constructor; auto. eapply Sids_upd; [apply (um_upd _ _ U)|].
+  - constructor; auto. eapply Sids_upd; [exact U|].
     intros id H. rewrite Hst. apply (i_sids _ I). unfold settings_ids in *. rewrite Hse in H. exact H.
   - intros _. exact A3.
-  - intros Fr _. eapply Fresh_upd; [apply (um_upd _ _ U)|].
-    intros id o' k H. unfold attr. rewrite Hh. apply Fr. unfold cache_of in *. rewrite Hse in H. exact H.
+  - intros _. exact Fv.
   - rewrite Lg, Hl, L. apply notif_refresh. auto.
 Qed.
 
@@ -136,9 +135,7 @@ Proof.
     + intros id H. unfold raw_ids in H. simpl in H. rewrite V1 in H. destruct H.
     + intros id H. simpl in H. rewrite S1 in H. destruct H.
   - intros _ _ id H. unfold raw_ids in H. simpl in H. rewrite V1 in H. destruct H.
-  - intros _ _ id o k H.
-    rewrite (cache_of_filter _ (fun i => memN i (store (set_log (log s1 ++ [StoreRefresh]) s1)))) in H.
-    simpl in H. rewrite S1 in H. simpl in H. discriminate.
+  - intros _ k id H. simpl in H. rewrite V1 in H. destruct H.
   - simpl. rewrite (sn_log _ _ _ X1). simpl. rewrite L. apply notif_refresh. auto.
 Qed.
 
@@ -148,7 +145,7 @@ Proof.
   intros I L. simpl. unfold clear_not_marked. msimp.
   set (s0 := set_store (filter (fun i => fmarked (attr s i)) (store s)) s).
   assert (Nd : NoDup (store s0)) by (simpl; apply NoDup_filter, (c_store _ (i_core _ I))).
-  destruct (refilter_spec s0 Nd) as (s1 & E & U & Lg & C & F & A1 & A2 & A3).
+  destruct (refilter_spec s0 Nd) as (s1 & E & U & Lg & C & F & A1 & A2 & A3 & Fv).
   rewrite (bind_ok _ _ _ _ _ E). unfold send_store_refresh, emit, settings_sig_store_refresh. msimp.
   eexists. split; [reflexivity|].
   set (t := set_log (log s1 ++ [StoreRefresh]) s1).
@@ -165,10 +162,7 @@ Proof.
     + eapply M1_cfg; [exact Cft | reflexivity | exact A1].
     + eapply M2_cfg; [exact Cft | reflexivity | exact A2].
   - intros _. eapply M3_cfg; [exact Cft | reflexivity | exact A3].
-  - intros Fr _ id o k H. rewrite (cache_of_filter t p) in H. destruct (p id); [|discriminate].
-    change (attr (set_settings (filter (fun e => p (fst e)) (settings t)) t) id) with (attr s1 id).
-    assert (Fr1 : Fresh s1) by (eapply Fresh_upd; [apply (um_upd _ _ U) | exact Fr]).
-    apply Fr1. exact H.
+  - intros _. eapply FreshV_cfg; [exact Cft | reflexivity | exact Fv].
   - simpl. rewrite Lg. simpl. rewrite L. simpl. apply notif_refresh. auto.
 Qed.
 
@@ -179,22 +173,28 @@ Proof.
   set (s0 := set_okey o s). pose proof (i_core _ I) as C.
   assert (Hst : forall id, In id (map snd (view s0)) -> In id (store s0)).
   { intros id H. apply in_ids_split in H as [k H]. apply (c_cached _ C _ _ H). }
-  destruct (mapM_keys o _ s0 Hst) as (kv & s1 & E & X & Hm & Hc).
+  destruct (regen_all o (map snd (view s0)) s0 [] Hst) as (sa & Ea & Ua & Va & Fa & La & Ka); [intros id []|].
+  rewrite (bind_ok _ _ _ _ _ Ea).
+  pose proof (u_cfg _ _ Ua) as Cfa.
+  assert (Hsta : forall id, In id (map snd (view s0)) -> In id (store sa)).
+  { intros id H. rewrite (ce_store _ _ Cfa). apply Hst. exact H. }
+  destruct (mapM_keys o _ sa Hsta) as (kv & s1 & E & X & Hm & Hc).
   rewrite (bind_ok _ _ _ _ _ E). unfold modify. eexists. split; [reflexivity|].
   destruct (sl_sorted_spec kv) as [Sk Pk].
-  pose proof (u_cfg _ _ (um_upd _ _ (e_updm _ _ X))) as Cf.
+  assert (U01 : upd s0 s1) by (eapply upd_trans; [exact Ua | apply (um_upd _ _ (e_updm _ _ X))]).
+  pose proof (u_cfg _ _ U01) as Cf.
   set (s' := set_view (sl_sorted kv) s1).
   assert (P : Permutation (raw_ids s') (raw_ids s)).
   { unfold raw_ids, s'. simpl. change (map snd (view s)) with (map snd (view s0)). rewrite <- Hm.
     apply Permutation_map. exact Pk. }
   assert (Sm : same_mem s s').
   { intros id. split; intros H; [eapply Permutation_in; [exact P | exact H] | eapply Permutation_in; [symmetry; exact P | exact H]]. }
-  assert (Cf' : cfg_eq s s' -> True) by trivial.
   assert (Hh : heap s' = heap s) by apply (ce_heap _ _ Cf).
   assert (Hs : store s' = store s) by apply (ce_store _ _ Cf).
   assert (Hf : filt s' = filt s) by apply (ce_filt _ _ Cf).
   assert (Hsm : show_marked s' = show_marked s) by apply (ce_sm _ _ Cf).
   assert (At : forall id, attr s' id = attr s id) by (intros id; unfold attr; rewrite Hh; reflexivity).
+  assert (Ok' : okey s' = o) by (change (okey s') with (okey s1); rewrite (ce_okey _ _ Cf); reflexivity).
   split; [|split; [|split]].
   - constructor.
     + constructor.
@@ -202,18 +202,22 @@ Proof.
       * exact Sk.
       * intros k id H. simpl in H. apply (Permutation_in _ Pk) in H. split.
         { rewrite Hs. apply Hst. rewrite <- Hm. eapply in_ids; eauto. }
-        { change (okey s') with (okey s1). rewrite (ce_okey _ _ Cf). simpl. apply (Hc _ _ H). }
+        { rewrite Ok'. apply (Hc _ _ H). }
       * eapply Permutation_NoDup; [symmetry; exact P | apply (c_nodup _ C)].
     + intros id H. rewrite Hs. change (settings_ids s') with (settings_ids s1) in H.
-      destruct (u_ids _ _ (um_upd _ _ (e_updm _ _ X)) _ H) as [H1|H1]; [apply (i_sids _ I); exact H1 | exact H1].
-    + pose proof (i_focus _ I) as F. unfold FocusOk in *. change (focus s') with (focus s1). rewrite (e_focus _ _ X). simpl.
+      destruct (u_ids _ _ U01 _ H) as [H1|H1]; [apply (i_sids _ I); exact H1 | exact H1].
+    + pose proof (i_focus _ I) as F. unfold FocusOk in *. change (focus s') with (focus s1).
+      rewrite (e_focus _ _ X), Fa. simpl.
       destruct (focus s) as [g|]; [apply Sm; exact F|].
       simpl. assert (kv = []) by (destruct kv; [reflexivity | simpl in Hm; rewrite F in Hm; discriminate]). subst. reflexivity.
     + intros id H. rewrite At, Hf. apply (i_m1 _ I), Sm, H.
     + intros id H Hw. apply Sm. apply (i_m2 _ I); [rewrite <- Hs; exact H|].
       unfold wanted in *. rewrite At, Hf, Hsm in Hw. exact Hw.
   - intros H3 Hs3 id H. rewrite At. apply H3; [rewrite <- Hsm; exact Hs3 | apply Sm, H].
-  - intros Fr _ id o' k H. rewrite At. change (cache_of s' id o') with (cache_of s1 id o') in H.
-    destruct (u_new _ _ (um_upd _ _ (e_updm _ _ X)) _ _ _ H) as [H1|[_ H1]]; [apply Fr; exact H1 | exact H1].
-  - change (log s') with (log s1). rewrite (e_log _ _ X). simpl. rewrite L. apply n_done. symmetry. exact P.
+  - intros _ k id H. simpl in H. apply (Permutation_in _ Pk) in H. rewrite Ok', At.
+    pose proof (Hc _ _ H) as H1.
+    assert (Hi : In id (map snd (view s0))) by (rewrite <- Hm; eapply in_ids; eauto).
+    pose proof (um_mono _ _ (e_updm _ _ X) _ _ _ (Ka id (or_intror Hi))) as H2.
+    rewrite H1 in H2. inversion H2. reflexivity.
+  - change (log s') with (log s1). rewrite (e_log _ _ X), La. simpl. rewrite L. apply n_done. symmetry. exact P.
 Qed.
